@@ -60,10 +60,12 @@ def _digest_events(events, extra=""):
   return h.hexdigest()[:16]
 
 
-def execute(profile, seed=None, cfg=None, events=None, tier="quick", time_limit=120, log=None):
+def execute(profile, seed=None, cfg=None, events=None, tier="quick", time_limit=120, log=None,
+            run_index=None):
   """Generate-and-run (events is None) or replay (events given). Returns RunResult."""
   res = RunResult()
   res.seed = seed
+  profile.current_run_index = run_index
   t0 = time.time()
   old = signal.signal(signal.SIGALRM, _alarm)
   signal.alarm(int(time_limit))
@@ -191,7 +193,7 @@ def _worker(args):
   for i in indices:
     seed = run_seed(verif_seed, profile.name, i)
     faulthandler.dump_traceback_later(time_limit + 30, exit=False)
-    r = execute(profile, seed=seed, tier=tier, time_limit=time_limit)
+    r = execute(profile, seed=seed, tier=tier, time_limit=time_limit, run_index=i)
     faulthandler.cancel_dump_traceback_later()
     r.run_index = i
     d = r.to_dict()
